@@ -534,11 +534,6 @@ func (c *Ctx) pathSet(base string, t types.Type, path []int, nv string) string {
 
 // ---- frames ----
 
-type loopMod struct {
-	refs  []string // map references the loop may modify, evaluated at the loop head
-	alloc string   // allocation counter at the loop head
-}
-
 type iterInfo struct {
 	key string
 	mt  *types.Map
@@ -571,7 +566,9 @@ type Frame struct {
 	refParams []string // all reference-like entry values (for freshness of allocations)
 	specdefs  map[string]types.Type
 	rawHavoc  []string
-	fnModMaps []string                       // terms of maps the function may modify (entry values)
+	fnModMaps  []modRef   // maps the function may modify (entry values)
+	fnModInner []modInner // "o[*][*]": inner maps of o the function may modify
+	curLoops   []*loopMod // loops (with modifies clauses) enclosing the call site of an inlined callee
 	loopOf    map[*ssa.BasicBlock][]*loopMod // enclosing loops (with modifies clauses) of each block
 	closures  map[ssa.Value]*ssa.MakeClosure // closure values by SSA value
 	closCells map[*ssa.Alloc]*ssa.MakeClosure  // locals holding a closure (f := func(){...})
@@ -579,6 +576,7 @@ type Frame struct {
 	forcedKey    string // commutes check: the key the next map-range Next must yield
 	commute      bool
 	loopRangeIdx map[int]*ssa.Alloc
+	loopIter     map[int]string // loop ordinal -> heap key of the iterator its header advances (iterseen / iterpos without a number)
 	loopHead  map[int]*State
 	iterN     int
 	iters     map[ssa.Value]iterInfo
@@ -902,24 +900,6 @@ func (fr *Frame) store(st *State, a Addr, v Val, pos token.Pos) {
 	st.heap[key] = fmt.Sprintf("(store %s %s %s)", arr, a.Ref, nv)
 }
 
-// mapWritePermission: the map is fresh since function entry, or listed in the function's modifies, and for every
-// enclosing loop with a modifies clause: listed there or fresh since that loop's head.
-func (fr *Frame) mapWritePermission(st *State, m string, blk *ssa.BasicBlock) string {
-	alts := []string{fmt.Sprintf("(> %s %s)", m, fr.allocTerm(fr.entry))}
-	for _, r := range fr.fnModMaps {
-		alts = append(alts, fmt.Sprintf("(= %s %s)", m, r))
-	}
-	conj := []string{"(or " + strings.Join(alts, " ") + ")"}
-	for _, lm := range fr.loopOf[blk] {
-		a2 := []string{fmt.Sprintf("(> %s %s)", m, lm.alloc)}
-		for _, r := range lm.refs {
-			a2 = append(a2, fmt.Sprintf("(= %s %s)", m, r))
-		}
-		conj = append(conj, "(or "+strings.Join(a2, " ")+")")
-	}
-	return "(and " + strings.Join(conj, " ") + ")"
-}
-
 // resolveModPath resolves "a.b.c" against the parameters of fn: returns the struct type owning the last field and its index.
 func resolveModPath(fn *ssa.Function, path string) (*types.Named, int, bool) {
 	parts := strings.Split(path, ".")
@@ -1160,10 +1140,18 @@ func (fr *Frame) run(st0 *State) {
 			if fr.loopRangeIdx == nil {
 				fr.loopRangeIdx = map[int]*ssa.Alloc{}
 			}
+			if fr.loopIter == nil {
+				fr.loopIter = map[int]string{}
+			}
 			for _, in := range b.Instrs {
 				if u, ok := in.(*ssa.UnOp); ok && u.Op == token.MUL {
 					if a, ok := u.X.(*ssa.Alloc); ok && a.Comment == "rangeindex" {
 						fr.loopRangeIdx[ord] = a
+					}
+				}
+				if nx, ok := in.(*ssa.Next); ok {
+					if it, ok := fr.iters[nx.Iter]; ok {
+						fr.loopIter[ord] = it.key
 					}
 				}
 			}
@@ -1215,9 +1203,7 @@ func (fr *Frame) run(st0 *State) {
 			var lm *loopMod
 			if fr.fc != nil && len(fr.fc.LoopMods[ord]) > 0 {
 				lm = &loopMod{alloc: preAlloc}
-				for _, e := range fr.fc.LoopMods[ord] {
-					lm.refs = append(lm.refs, fr.evalExpr(e, &Env{fr: fr, st: preState, old: fr.entry, binds: fr.ghost}).T)
-				}
+				lm.refs, lm.inner = fr.evalModMaps(fr.fc.LoopMods[ord], preState, fr.ghost, false)
 				for blk := range body {
 					fr.loopOf[blk] = append(fr.loopOf[blk], lm)
 				}
@@ -1233,32 +1219,37 @@ func (fr *Frame) run(st0 *State) {
 					}
 				}
 			}
-			for _, k := range fr.rawHavoc {
-				if lm != nil && (strings.HasPrefix(k, "Mdom:") || strings.HasPrefix(k, "Mval:")) {
-					cur := c.heapGetSort(preState, k, c.heapSrt[k])
-					inner := c.heapSrt[k][len("(Array Int ") : len(c.heapSrt[k])-1]
-					for _, r := range lm.refs {
-						cur = fmt.Sprintf("(store %s %s %s)", cur, r, c.fresh("hvInner", inner))
-					}
-					// maps created inside the loop are unconstrained: allow any change above the loop-head counter
-					nh := c.fresh("hvR", c.heapSrt[k])
-					c.n++
-					q := fmt.Sprintf("r_q%d", c.n)
-					fr.assume(st, fmt.Sprintf("(forall ((%s Int)) (! (=> (<= %s %s) (= (select %s %s) (select %s %s))) :pattern ((select %s %s))))", q, q, preAlloc, nh, q, cur, q, nh, q))
-					st.heap[k] = nh
-					continue
-				}
-				old := c.heapGetSort(fr.entry, k, c.heapSrt[k])
-				nh := c.fresh("hvR", c.heapSrt[k])
-				if strings.HasPrefix(k, "E:") || strings.HasPrefix(k, "Mdom:") || strings.HasPrefix(k, "Mval:") {
-					c.n++
-					q := fmt.Sprintf("r_q%d", c.n)
-					fr.assume(st, fmt.Sprintf("(forall ((%s Int)) (! (=> (<= %s %s) (= (select %s %s) (select %s %s))) :pattern ((select %s %s))))", q, q, fr.allocTerm(fr.entry), nh, q, old, q, nh, q))
-					if ef := c.eltFrame(k, nh, old, fr.allocTerm(fr.entry)); ef != "" {
-						fr.assume(st, ef)
+			{
+				// maps and backing arrays that the loop may change: everything that existed at the bound and is not
+				// covered by the write permission keeps the value it had when the loop was entered
+				seenK := map[string]bool{}
+				var hk []string
+				for _, k := range fr.rawHavoc {
+					if !seenK[k] {
+						seenK[k] = true
+						hk = append(hk, k)
 					}
 				}
-				st.heap[k] = nh
+				sort.Strings(hk)
+				for _, k := range hk {
+					if strings.HasPrefix(k, "IT") {
+						st.heap[k] = c.fresh("hvIt", c.heapSrt[k])
+						continue
+					}
+					if fr.writeAll {
+						st.heap[k] = c.fresh("hvR", c.heapSrt[k])
+						continue
+					}
+					if lm != nil && !strings.HasPrefix(k, "E:") {
+						fr.havocHeapKey(st, k, preAlloc, lm.refs, lm.inner, nil, "hvR")
+					} else {
+						var arrs []string
+						for _, w := range fr.elemWrite {
+							arrs = append(arrs, fmt.Sprintf("(sl.arr %s)", w))
+						}
+						fr.havocHeapKey(st, k, fr.allocTerm(fr.entry), fr.fnModMaps, fr.fnModInner, arrs, "hvR")
+					}
+				}
 			}
 			fr.rawHavoc = nil
 			if fr.fc != nil {
@@ -1518,31 +1509,14 @@ func (fr *Frame) modifiedIn(body map[*ssa.BasicBlock]bool) ([]*ssa.Alloc, []stri
 	}
 	for b := range body {
 		for _, in := range b.Instrs {
-			switch x := in.(type) {
-			case *ssa.Next:
+			if x, ok := in.(*ssa.Next); ok {
 				if it, ok := fr.iters[x.Iter]; ok {
 					fr.rawHavoc = append(fr.rawHavoc, it.key)
-				}
-			case *ssa.Call:
-				if b, ok := x.Call.Value.(*ssa.Builtin); ok && b.Name() == "delete" {
-					mt := x.Call.Args[0].Type().Underlying().(*types.Map)
-					kd, kv, _, _ := c.mapHeaps(fr.entry, mt)
-					fr.rawHavoc = append(fr.rawHavoc, kd, kv)
-				}
-			case *ssa.MapUpdate:
-				mt := x.Map.Type().Underlying().(*types.Map)
-				kd, kv, _, _ := c.mapHeaps(fr.entry, mt)
-				fr.rawHavoc = append(fr.rawHavoc, kd, kv)
-			case *ssa.Store:
-				if ia, ok := x.Addr.(*ssa.IndexAddr); ok {
-					if sl, ok := ia.X.Type().Underlying().(*types.Slice); ok {
-						k, _ := c.elemHeap(fr.entry, sl.Elem())
-						fr.rawHavoc = append(fr.rawHavoc, k)
-					}
 				}
 			}
 		}
 	}
+	fr.collectHeapEffects(body, 0, map[*ssa.Function]bool{})
 	var cells []*ssa.Alloc
 	for a := range cellSet {
 		cells = append(cells, a)
@@ -1555,6 +1529,165 @@ func (fr *Frame) modifiedIn(body map[*ssa.BasicBlock]bool) ([]*ssa.Alloc, []stri
 	}
 	sort.Strings(keys)
 	return cells, keys
+}
+
+// collectHeapEffects appends to fr.rawHavoc the map / backing-array heap keys that the blocks may change: direct
+// updates, allocations, transparent callees (recursively), closures of the function, and the modifies clauses of
+// callees under contract.
+func (fr *Frame) collectHeapEffects(body map[*ssa.BasicBlock]bool, depth int, seen map[*ssa.Function]bool) {
+	c := fr.ctx
+	addMap := func(t types.Type) {
+		if mt, ok := t.Underlying().(*types.Map); ok {
+			kd, kv, _, _ := c.mapHeaps(fr.entry, mt)
+			fr.rawHavoc = append(fr.rawHavoc, kd, kv)
+		}
+	}
+	addElem := func(elem types.Type) {
+		k, _ := c.elemHeap(fr.entry, elem)
+		fr.rawHavoc = append(fr.rawHavoc, k)
+	}
+	var elemOfAddr func(v ssa.Value) (types.Type, bool)
+	elemOfAddr = func(v ssa.Value) (types.Type, bool) {
+		switch a := v.(type) {
+		case *ssa.IndexAddr:
+			switch u := a.X.Type().Underlying().(type) {
+			case *types.Slice:
+				return u.Elem(), true
+			case *types.Pointer:
+				if at, ok := u.Elem().Underlying().(*types.Array); ok {
+					return at.Elem(), true
+				}
+			}
+		case *ssa.FieldAddr:
+			return elemOfAddr(a.X)
+		}
+		return nil, false
+	}
+	scanFn := func(fn *ssa.Function) {
+		if fn == nil || fn.Blocks == nil || seen[fn] || depth > 6 {
+			return
+		}
+		seen[fn] = true
+		sub := map[*ssa.BasicBlock]bool{}
+		for _, b := range fn.Blocks {
+			sub[b] = true
+		}
+		fr.collectHeapEffects(sub, depth+1, seen)
+	}
+	for b := range body {
+		for _, in := range b.Instrs {
+			switch x := in.(type) {
+			case *ssa.MapUpdate:
+				addMap(x.Map.Type())
+			case *ssa.MakeMap:
+				addMap(x.Type())
+			case *ssa.MakeSlice:
+				addElem(x.Type().Underlying().(*types.Slice).Elem())
+			case *ssa.Alloc:
+				if at, ok := x.Type().(*types.Pointer).Elem().Underlying().(*types.Array); ok {
+					addElem(at.Elem())
+				}
+			case *ssa.Convert:
+				if sl, ok := x.Type().Underlying().(*types.Slice); ok {
+					addElem(sl.Elem())
+				}
+			case *ssa.Store:
+				if et, ok := elemOfAddr(x.Addr); ok {
+					addElem(et)
+				}
+				// a store through a local that holds an element address (p := &xs[i]; p.f = v)
+				if fa, ok := x.Addr.(*ssa.FieldAddr); ok {
+					if u, ok := fa.X.(*ssa.UnOp); ok {
+						if al, ok := u.X.(*ssa.Alloc); ok {
+							if av, ok := fr.ptrCells[al]; ok && av.Elem {
+								addElem(av.Root)
+							}
+						}
+					}
+				}
+			case *ssa.MakeClosure:
+				scanFn(x.Fn.(*ssa.Function))
+			case *ssa.Call:
+				if bi, ok := x.Call.Value.(*ssa.Builtin); ok {
+					switch bi.Name() {
+					case "delete":
+						addMap(x.Call.Args[0].Type())
+					case "append":
+						addElem(x.Call.Args[0].Type().Underlying().(*types.Slice).Elem())
+					case "copy":
+						if sl, ok := x.Call.Args[0].Type().Underlying().(*types.Slice); ok {
+							addElem(sl.Elem())
+						}
+					}
+					continue
+				}
+				callee := x.Call.StaticCallee()
+				if callee == nil {
+					// closure value or interface method: the closures of this function may run
+					if fr.fn != nil {
+						for _, af := range fr.fn.AnonFuncs {
+							scanFn(af)
+						}
+					}
+					continue
+				}
+				full := callee.String()
+				if strings.HasPrefix(full, "maps.Copy[") {
+					addMap(x.Call.Args[0].Type())
+					continue
+				}
+				if callee.Pkg == nil || !strings.HasPrefix(callee.Pkg.Pkg.Path(), "github.com/juev/hledger-lsp") {
+					if sl, ok := x.Type().Underlying().(*types.Slice); ok && (full == "strings.Split" || full == "strings.Fields" || full == "strings.SplitN") {
+						addElem(sl.Elem())
+					}
+					continue
+				}
+				fc := c.cs.Funcs[funcKey(callee)]
+				if fc == nil || fc.Pure {
+					if callee.Pkg != c.pkg && fc == nil && !isLeaf(callee) {
+						continue // abstracted as an opaque value at the call
+					}
+					scanFn(callee)
+					continue
+				}
+				if fc.Auto {
+					for k := range c.heapSrt {
+						if strings.HasPrefix(k, "Mdom:") || strings.HasPrefix(k, "Mval:") || strings.HasPrefix(k, "E:") {
+							fr.rawHavoc = append(fr.rawHavoc, k)
+						}
+					}
+					continue
+				}
+				withPkg(fc.Pkg, func() {
+					binds := map[string]Val{}
+					for _, p := range callee.Params {
+						binds[p.Name()] = Val{"0", p.Type()}
+					}
+					scratch := &State{pc: "true", cells: map[cellKey]string{}, heap: map[string]string{}}
+					for _, e := range fc.ModMaps {
+						ex := strings.TrimSuffix(e, "[*]")
+						v := fr.evalExpr(ex, &Env{fr: fr, st: scratch, old: scratch, binds: binds, noLocals: true})
+						addMap(v.Typ)
+						if strings.HasSuffix(e, "[*]") {
+							addMap(v.Typ.Underlying().(*types.Map).Elem())
+						}
+					}
+					for _, e := range fc.ModElems {
+						v := fr.evalExpr(e, &Env{fr: fr, st: scratch, old: scratch, binds: binds, noLocals: true})
+						addElem(v.Typ.Underlying().(*types.Slice).Elem())
+					}
+				})
+				if !fc.NoEffect && !fc.NoAlloc {
+					// the callee may allocate maps and arrays of any type
+					for k := range c.heapSrt {
+						if strings.HasPrefix(k, "Mdom:") || strings.HasPrefix(k, "Mval:") || strings.HasPrefix(k, "E:") {
+							fr.rawHavoc = append(fr.rawHavoc, k)
+						}
+					}
+				}
+			}
+		}
+	}
 }
 
 func (fr *Frame) merge(ins []edge, b *ssa.BasicBlock) *State {
@@ -1953,7 +2086,7 @@ func (fr *Frame) step(st *State, in ssa.Instruction) bool {
 		mv, kv2, vv := fr.val(x.Map), fr.val(x.Key), fr.val(x.Value)
 		fr.obligeAt(st, "safety.nilmap", "index", fmt.Sprintf("(not (= %s 0))", mv.T), x.Pos())
 		kd, kv, dom, val := c.mapHeaps(st, mt)
-		fr.obligeAt(st, "frame.map_write", "index", fr.mapWritePermission(st, mv.T, x.Block()), x.Pos())
+		fr.obligeAt(st, "frame.map_write", "index", fr.mapWritePermission(st, mv.T, mt, x.Block()), x.Pos())
 		st.heap[kd] = fmt.Sprintf("(store %s %s (store (select %s %s) %s true))", dom, mv.T, dom, mv.T, kv2.T)
 		st.heap[kv] = fmt.Sprintf("(store %s %s (store (select %s %s) %s %s))", val, mv.T, val, mv.T, kv2.T, vv.T)
 		return true
@@ -2135,7 +2268,7 @@ func (fr *Frame) call(st *State, x *ssa.Call) bool {
 			mt := x.Call.Args[0].Type().Underlying().(*types.Map)
 			mv, kv2 := fr.val(x.Call.Args[0]), fr.val(x.Call.Args[1])
 			kd, _, dom, _ := c.mapHeaps(st, mt)
-			fr.obligeAt(st, "frame.map_write", "call", fmt.Sprintf("(or (= %s 0) %s)", mv.T, fr.mapWritePermission(st, mv.T, x.Block())), x.Pos())
+			fr.obligeAt(st, "frame.map_write", "call", fmt.Sprintf("(or (= %s 0) %s)", mv.T, fr.mapWritePermission(st, mv.T, mt, x.Block())), x.Pos())
 			st.heap[kd] = fmt.Sprintf("(ite (= %s 0) %s (store %s %s (store (select %s %s) %s false)))", mv.T, dom, dom, mv.T, dom, mv.T, kv2.T)
 		case "ssa:deferstack":
 			setRes(Val{c.fresh("ds", "U"), x.Type()})
@@ -2150,7 +2283,7 @@ func (fr *Frame) call(st *State, x *ssa.Call) bool {
 		for _, a := range x.Call.Args {
 			args = append(args, fr.val(a))
 		}
-		rets := fr.inlineClosure(st, cfn, mc.Bindings, args)
+		rets := fr.inlineClosure(st, cfn, mc.Bindings, args, x.Block())
 		if len(rets) > 0 {
 			setRes(rets...)
 		}
@@ -2208,7 +2341,7 @@ func (fr *Frame) call(st *State, x *ssa.Call) bool {
 		mt := x.Call.Args[0].Type().Underlying().(*types.Map)
 		kd, kv, dom, val := c.mapHeaps(st, mt)
 		ks, vs := c.sortOf(mt.Key()), c.sortOf(mt.Elem())
-		fr.obligeAt(st, "frame.map_write", "call", fr.mapWritePermission(st, dst.T, x.Block()), x.Pos())
+		fr.obligeAt(st, "frame.map_write", "call", fr.mapWritePermission(st, dst.T, mt, x.Block()), x.Pos())
 		nd := c.fresh("copydom", fmt.Sprintf("(Array %s Bool)", ks))
 		nv := c.fresh("copyval", fmt.Sprintf("(Array %s %s)", ks, vs))
 		c.n++
@@ -2300,7 +2433,7 @@ func (fr *Frame) call(st *State, x *ssa.Call) bool {
 	fc := c.cs.Funcs[key]
 	if fc == nil || fc.Pure {
 		// transparent
-		rets := fr.inline(st, callee, args)
+		rets := fr.inline(st, callee, args, x.Block())
 		if len(rets) > 0 {
 			setRes(rets...)
 		}
@@ -2425,23 +2558,38 @@ func (fr *Frame) applyContract(st *State, x *ssa.Call, callee *ssa.Function, fc 
 			fr.assumeAllocated(st, r, na)
 		}
 	}
-	modRefs := []string{}
-	modRefKey := map[string]string{} // ref term -> "Mdom:<type>" of its map type
-	for _, e := range fc.ModMaps {
-		mv := fr.evalExpr(e, &Env{fr: fr, st: pre, old: pre, binds: binds, noLocals: true})
-		modRefs = append(modRefs, mv.T)
-		if mt, ok := mv.Typ.Underlying().(*types.Map); ok {
-			kd, _, _, _ := c.mapHeaps(st, mt)
-			modRefKey[mv.T] = kd[len("Mdom:"):]
+	// maps the callee may modify: the caller must itself be allowed to modify them
+	cRefs, cInner := fr.evalModMaps(fc.ModMaps, pre, binds, true)
+	for i, m := range cRefs {
+		alts := append([]string{fmt.Sprintf("(= %s 0)", m.term), fmt.Sprintf("(> %s %s)", m.term, fr.allocTerm(fr.entry))}, fr.permittedAlts(m.term, m.tn, fr.fnModMaps, fr.fnModInner)...)
+		conj := []string{orOf(alts)}
+		for _, lm := range append(append([]*loopMod{}, fr.curLoops...), fr.loopOf[x.Block()]...) {
+			a2 := append([]string{fmt.Sprintf("(= %s 0)", m.term), fmt.Sprintf("(> %s %s)", m.term, lm.alloc)}, fr.permittedAlts(m.term, m.tn, lm.refs, lm.inner)...)
+			conj = append(conj, orOf(a2))
 		}
-		// the caller must itself be allowed to modify it
-		fr.oblige(st, fmt.Sprintf("call[%s].frame.map_write[%s]@%d", key, e, c.prog.Fset.Position(x.Pos()).Line), fmt.Sprintf("(or (= %s 0) %s)", mv.T, fr.mapWritePermission(st, mv.T, x.Block())), x.Pos())
+		if !fr.writeAll {
+			fr.oblige(st, fmt.Sprintf("call[%s].frame.map_write[%d]@%d", key, i+1, c.prog.Fset.Position(x.Pos()).Line), "(and "+strings.Join(conj, " ")+" true)", x.Pos())
+		}
+	}
+	for i, in := range cInner {
+		// every inner map of the outer map must be writable by the caller
+		it := in.ot.Elem().Underlying().(*types.Map)
+		_, _, dom, val := c.mapHeaps(pre, in.ot)
+		c.n++
+		q := fmt.Sprintf("t_q%d", c.n)
+		m := fmt.Sprintf("(select (select %s %s) %s)", val, in.outer, q)
+		if !fr.writeAll {
+			fr.oblige(st, fmt.Sprintf("call[%s].frame.map_write_inner[%d]@%d", key, i+1, c.prog.Fset.Position(x.Pos()).Line),
+				fmt.Sprintf("(forall ((%s %s)) (! (=> (select (select %s %s) %s) (or (= %s 0) %s)) :pattern (%s)))", q, c.sortOf(in.ot.Key()), dom, in.outer, q, m, fr.mapWritePermission(st, m, it, x.Block()), m), x.Pos())
+		}
 	}
 	var modElemArrs []string
 	for _, e := range fc.ModElems {
 		sv := fr.evalExpr(e, &Env{fr: fr, st: pre, old: pre, binds: binds, noLocals: true})
 		modElemArrs = append(modElemArrs, fmt.Sprintf("(sl.arr %s)", sv.T))
-		fr.oblige(st, fmt.Sprintf("call[%s].frame.write_elem[%s]@%d", key, e, c.prog.Fset.Position(x.Pos()).Line), fr.elemWritePerm(Addr{Ref: fmt.Sprintf("(sl.arr %s)", sv.T)}), x.Pos())
+		if !fr.writeAll {
+			fr.oblige(st, fmt.Sprintf("call[%s].frame.write_elem[%s]@%d", key, e, c.prog.Fset.Position(x.Pos()).Line), fr.elemWritePerm(Addr{Ref: fmt.Sprintf("(sl.arr %s)", sv.T)}), x.Pos())
+		}
 	}
 	{
 		// maps and backing arrays: the callee may create new ones; existing ones are unchanged except those in its modifies
@@ -2454,30 +2602,7 @@ func (fr *Frame) applyContract(st *State, x *ssa.Call, callee *ssa.Function, fc 
 		}
 		sort.Strings(ks)
 		for _, k := range ks {
-			old := c.heapGetSort(st, k, c.heapSrt[k])
-			inner := c.heapSrt[k][len("(Array Int ") : len(c.heapSrt[k])-1]
-			if strings.HasPrefix(k, "Mdom:") || strings.HasPrefix(k, "Mval:") {
-				for _, r := range modRefs {
-					if tn, ok := modRefKey[r]; ok && !strings.HasSuffix(k, ":"+tn) {
-						continue // a map of another type lives in another heap
-					}
-					old = fmt.Sprintf("(store %s %s %s)", old, r, c.fresh("postInner", inner))
-				}
-			} else {
-				for _, r := range modElemArrs {
-					old = fmt.Sprintf("(store %s %s %s)", old, r, c.fresh("postElems", inner))
-				}
-			}
-			na := c.fresh("postH", c.heapSrt[k])
-			c.n++
-			q := fmt.Sprintf("r_q%d", c.n)
-			fr.assume(st, fmt.Sprintf("(forall ((%s Int)) (! (=> (<= %s %s) (= (select %s %s) (select %s %s))) :pattern ((select %s %s))))", q, q, before, na, q, old, q, na, q))
-			if len(modElemArrs) == 0 || !strings.HasPrefix(k, "E:") {
-				if ef := c.eltFrame(k, na, old, before); ef != "" {
-					fr.assume(st, ef)
-				}
-			}
-			st.heap[k] = na
+			fr.havocHeapKey(st, k, before, cRefs, cInner, modElemArrs, "postH")
 		}
 	}
 	assumeEnsures()
@@ -2500,12 +2625,13 @@ func (fr *Frame) assumeAllocated(st *State, r Val, bound string) {
 	}
 }
 
-func (fr *Frame) inline(st *State, callee *ssa.Function, args []Val) []Val {
+func (fr *Frame) inline(st *State, callee *ssa.Function, args []Val, blk *ssa.BasicBlock) []Val {
 	c := fr.ctx
 	if fr.depth > 8 {
 		panic("inline depth exceeded at " + funcKey(callee))
 	}
-	nf := &Frame{loopHead: map[int]*State{}, loopOf: map[*ssa.BasicBlock][]*loopMod{}, fnModMaps: fr.fnModMaps, ctx: c, fn: callee, vals: map[ssa.Value]Val{}, tuples: map[ssa.Value][]Val{}, addrs: map[ssa.Value]Addr{}, depth: fr.depth + 1, locals: map[string][]*ssa.Alloc{}, fname: fr.fname, entry: fr.entry, ptrParams: fr.ptrParams, refParams: fr.refParams, iters: map[ssa.Value]iterInfo{}, iterKeys: map[int]string{}, specdefs: fr.specdefs}
+	nf := fr.child(callee)
+	nf.curLoops = append(append([]*loopMod{}, fr.curLoops...), fr.loopOf[blk]...)
 	for i, p := range callee.Params {
 		nf.vals[p] = args[i]
 	}
@@ -2693,9 +2819,9 @@ func (fr *Frame) checkCommutes(h *ssa.BasicBlock, ord int, st *State, isBack fun
 
 // inlineClosure executes a locally made closure (loop-free) on the caller's state; its free variables are the
 // captured cells of the enclosing frame, so writes to them are visible to the caller.
-func (fr *Frame) inlineClosure(st *State, cfn *ssa.Function, bindings []ssa.Value, args []Val) []Val {
-	c := fr.ctx
-	nf := &Frame{loopHead: map[int]*State{}, loopOf: map[*ssa.BasicBlock][]*loopMod{}, fnModMaps: fr.fnModMaps, ctx: c, fn: cfn, vals: map[ssa.Value]Val{}, tuples: map[ssa.Value][]Val{}, addrs: map[ssa.Value]Addr{}, depth: fr.depth + 1, locals: map[string][]*ssa.Alloc{}, fname: fr.fname, entry: fr.entry, ptrParams: fr.ptrParams, refParams: fr.refParams, iters: map[ssa.Value]iterInfo{}, iterKeys: map[int]string{}, specdefs: fr.specdefs}
+func (fr *Frame) inlineClosure(st *State, cfn *ssa.Function, bindings []ssa.Value, args []Val, blk *ssa.BasicBlock) []Val {
+	nf := fr.child(cfn)
+	nf.curLoops = append(append([]*loopMod{}, fr.curLoops...), fr.loopOf[blk]...)
 	for i, p := range cfn.Params {
 		nf.vals[p] = args[i]
 	}
